@@ -228,3 +228,100 @@ pub fn point_map(vars: &[Var], p: &[Fl]) -> HashMap<Var, f32> {
         .map(|(i, v)| (*v, p.get(i).map(|f| f.0).unwrap_or(0.0)))
         .collect()
 }
+
+/// A context graph flattened for fast repeated evaluation with the context's
+/// own per-opcode `eval` (i.e. `Context::eval` semantics for every node)
+pub struct Flat {
+    pub nodes: Vec<Node>,
+    pub index: HashMap<Node, usize>,
+    ops: Vec<FlatOp>,
+}
+
+#[derive(Copy, Clone)]
+enum FlatOp {
+    Input(Var),
+    Const(f32),
+    Un(UnaryOpcode, usize),
+    Bin(BinaryOpcode, usize, usize),
+}
+
+impl Flat {
+    pub fn new(ctx: &Context, roots: &[Node]) -> Flat {
+        let nodes = topo(ctx, roots);
+        let index: HashMap<Node, usize> =
+            nodes.iter().enumerate().map(|(i, n)| (*n, i)).collect();
+        let ops = nodes
+            .iter()
+            .map(|n| match *ctx.get_op(*n).unwrap() {
+                Op::Input(v) => FlatOp::Input(v),
+                Op::Const(c) => FlatOp::Const(c.0),
+                Op::Unary(o, a) => FlatOp::Un(o, index[&a]),
+                Op::Binary(o, a, b) => FlatOp::Bin(o, index[&a], index[&b]),
+            })
+            .collect();
+        Flat { nodes, index, ops }
+    }
+
+    /// Evaluates every node; `var` supplies input values
+    pub fn eval_into(&self, var: &dyn Fn(Var) -> f32, out: &mut Vec<f32>) {
+        out.clear();
+        for op in &self.ops {
+            let v = match *op {
+                FlatOp::Input(v) => var(v),
+                FlatOp::Const(c) => c,
+                FlatOp::Un(o, a) => o.eval(out[a]),
+                FlatOp::Bin(o, a, b) => o.eval(out[a], out[b]),
+            };
+            out.push(v);
+        }
+    }
+
+    pub fn eval_xyz(&self, x: f32, y: f32, z: f32, out: &mut Vec<f32>) {
+        self.eval_into(
+            &|v| match v {
+                Var::X => x,
+                Var::Y => y,
+                Var::Z => z,
+                _ => 0.0,
+            },
+            out,
+        )
+    }
+
+    /// Reference taint (see p02::ref_taint) for flat values
+    pub fn taint(&self, vals: &[f32]) -> Vec<bool> {
+        let mut t = vec![false; self.ops.len()];
+        for (i, op) in self.ops.iter().enumerate() {
+            t[i] = match *op {
+                FlatOp::Input(..) | FlatOp::Const(..) => false,
+                FlatOp::Un(o, a) => {
+                    t[a] || (o == UnaryOpcode::Rand && vals[a].is_nan())
+                }
+                FlatOp::Bin(o, a, b) => {
+                    t[a] || t[b]
+                        || (matches!(o, BinaryOpcode::Min | BinaryOpcode::Max)
+                            && vals[a] == 0.0
+                            && vals[b] == 0.0
+                            && vals[a].to_bits() != vals[b].to_bits())
+                        || (o == BinaryOpcode::Mix
+                            && (vals[a].is_nan() || vals[b].is_nan()))
+                }
+            };
+        }
+        t
+    }
+
+    /// NaN produced from non-NaN operands one of which is infinite
+    pub fn nan_from_inf(&self, vals: &[f32]) -> bool {
+        self.ops.iter().enumerate().any(|(i, op)| match *op {
+            FlatOp::Un(_, a) => vals[i].is_nan() && vals[a].is_infinite(),
+            FlatOp::Bin(_, a, b) => {
+                vals[i].is_nan()
+                    && !vals[a].is_nan()
+                    && !vals[b].is_nan()
+                    && (vals[a].is_infinite() || vals[b].is_infinite())
+            }
+            _ => false,
+        })
+    }
+}
